@@ -96,7 +96,7 @@ type nativeRun struct {
 	events   []string
 }
 
-func (nb *nativeBuild) run(inst string, model map[string]string, timeout time.Duration) nativeRun {
+func (nb *nativeBuild) run(inst string, model map[string]string, timeout time.Duration, extraEnv ...string) nativeRun {
 	inputs := filepath.Join(nb.scratch, fmt.Sprintf("inputs-%d.json", time.Now().UnixNano()))
 	m := map[string]string{}
 	for k, v := range model {
@@ -109,7 +109,7 @@ func (nb *nativeBuild) run(inst string, model map[string]string, timeout time.Du
 	ctx, cancel := context.WithTimeout(context.Background(), timeout)
 	defer cancel()
 	cmd := exec.CommandContext(ctx, nb.bin, "-test.run", "TestReplay", "-test.timeout", "60s")
-	cmd.Env = append(os.Environ(), "VND_INSTANCE="+inst, "VND_INPUTS="+inputs, "VND_VERBOSE=1")
+	cmd.Env = append(append(os.Environ(), "VND_INSTANCE="+inst, "VND_INPUTS="+inputs, "VND_VERBOSE=1"), extraEnv...)
 	var buf bytes.Buffer
 	cmd.Stdout, cmd.Stderr = &buf, &buf
 	err := cmd.Run()
@@ -138,7 +138,13 @@ func confirm(nb *nativeBuild, inst Instance, v interp.Violation) (bool, string) 
 	}
 	var last nativeRun
 	for t := 0; t < tries; t++ {
-		r := nb.run(inst.Func, v.Model, 20*time.Second)
+		var extra []string
+		if t%2 == 1 {
+			// one processor: goroutines run in spawn order until they block, which reaches
+			// interleavings that need "the first finished before the second started"
+			extra = []string{"GOMAXPROCS=1"}
+		}
+		r := nb.run(inst.Func, v.Model, 20*time.Second, extra...)
 		last = r
 		switch v.Kind {
 		case "assert", "expect":
